@@ -99,6 +99,9 @@ class Handler:
                 ws = [w.set("@rawcount", c) for w in ws for c in (0, 1, 2)]
         if self.has_cond:
             conds = [("cond", "c", d) for d in range(4)] + [("bool", True), ("bool", False)]
+            # constants behind one or two negations (a hand-built guard, a negated constant
+            # left by a substitution)
+            conds += [("cond", b_, d) for b_ in ("T", "F") for d in (1, 2)]
             ws = [w.set("@cond", c) for w in ws for c in conds]
         return ws
 
@@ -171,7 +174,10 @@ class Handler:
             outs = []
             for v, w2 in self.ev(e.value, w):
                 if v[0] == "cond" and e.attr == "child" and v[2] > 0:
-                    outs.append((("cond", v[1], v[2] - 1), w2))
+                    if v[2] == 1 and v[1] in ("T", "F"):
+                        outs.append((("bool", v[1] == "T"), w2))
+                    else:
+                        outs.append((("cond", v[1], v[2] - 1), w2))
                 elif v[0] == "arm" and v[2] and not v[3] and w2.get(f"@shape:{v[1]}") in ("same", "other"):
                     shape = w2.get(f"@shape:{v[1]}")
                     if e.attr == "condition":
@@ -680,7 +686,7 @@ class Handler:
             cls, slots = v[1], dict(v[2])
             decl = [s.lstrip("*") for s in self.slots_of.get(cls, [])]
             if "condition" in decl:
-                c = slots.get("condition", OTHER)
+                c = _const_value(slots.get("condition", OTHER))
                 out = []
                 for s in decl:
                     if s not in self.single:
@@ -734,7 +740,7 @@ class Handler:
             return [] if n else [((), "top", True)]
         out = []
         decl = [s.lstrip("*") for s in self.slots_of.get(self.cls, [])]
-        c = w.get("@cond", ("cond", "c", 0))
+        c = _const_value(w.get("@cond", ("cond", "c", 0)))
         for s in decl:
             if s not in self.single:
                 continue
@@ -792,6 +798,13 @@ class Handler:
             "the handler returns a value of unknown origin"
 
     # }}}
+
+
+def _const_value(c):
+    """a constant behind negations has the truth value the negations leave it"""
+    if c[0] == "cond" and c[1] in ("T", "F"):
+        return ("bool", (c[1] == "T") == (c[2] % 2 == 0))
+    return c
 
 
 def analyse(P, f, cls_handled, single, listy, slots_of, top=False, want_nullfree=True):
